@@ -1463,6 +1463,15 @@ func (m *StateMachine) recordProposedHeader(
 ) (ok bool) {
 	h, r := rlc.H, rlc.R
 
+	if m.signer == nil {
+		// Without a signer we can never participate,
+		// but the consensus strategy was still handed a proposal channel.
+		glog.HRE(m.log, h, r, errors.New("no signer")).Warn(
+			"Ignoring proposal from consensus strategy because the state machine has no signer",
+		)
+		return true
+	}
+
 	var commitProof tmconsensus.CommitProof
 	if h > m.genesis.InitialHeight {
 		// We need to make a finalized commit proof,
